@@ -9445,7 +9445,7 @@ func (c *BytecodeCompiler) compileOptimisedCallMethod(receiverType types.Type, n
 		return
 	}
 
-	body := method.Body
+	body := method.GetBody()
 	switch body := body.(type) {
 	case *vm.BytecodeFunction:
 		c.emitCallMethodBytecodePtr(
